@@ -225,6 +225,23 @@ def install_iter(reg):
         modifies=["self.*", "datastream.d"]))
 
 
+def _defaults_contract(arg=None):
+    """the reader constructed with the stream alone: the options the reader properties presuppose when none is given -
+    all three protocols pass the filter, frames are parsed, checksums are validated, GET mode, no handler"""
+    c = Contract(
+        R + "__init__",
+        params={"self": lambda ex, name: ex.bm.new_object(__import__("pyubx2").UBXReader),
+                "datastream": stream_or_socket, "msgmode": ("default",), "validate": ("default",),
+                "protfilter": ("default",), "quitonerror": ("default",), "parsebitfield": ("default",),
+                "labelmsm": ("default",), "bufsize": ("default",), "parsing": ("default",),
+                "errorhandler": ("default",)},
+        ensures=[("all-protocols-pass", "self._protfilter == 7"), ("frames-are-parsed", "self._parsing == True"),
+                 ("checksums-validated", "self._validate == 1"), ("get-mode", "self._msgmode == 0"),
+                 ("errors-logged-not-raised", "self._quitonerror == 1"), ("no-handler", "self._errorhandler is None")],
+        raises={}, modifies=["self.*", "datastream.d"])
+    return c
+
+
 def handler_or_none(ex, name):
     """errorhandler argument: a callable or None"""
     from pvc.models_io import HandlerModel
